@@ -31,7 +31,7 @@ def demo(path):
 
 
 def do_import(pid, src):
-    for k in range(1, 16):
+    for k in range(1, 18):
         pf = os.path.join(src, "patch%d.diff" % k)
         if not os.path.exists(pf):
             continue
